@@ -1023,6 +1023,11 @@ func (y *ifFeatureEval) factor() bool {
 		y.fail()
 		return false
 	}
+	// features are kept by name for the module and everything it imports, a prefix
+	// (the module's own or an import's) says where the name is defined
+	if colon := strings.IndexRune(tok, ':'); colon > 0 {
+		tok = tok[colon+1:]
+	}
 	_, found := y.features[tok]
 	return found
 }
